@@ -80,6 +80,9 @@ def eval_atmos(row):
         got_u = float(np.asarray(get_SLS_equivalent_fuel_flow(np.array([4.0]), np.array([P / 100.0]), np.array([theta * 288.15 * 1.8]), np.array([int(m) / 100.0]),
                                                               z=3.8, P_SL=1013.25, T_SL=518.67, n_eng=4)).ravel()[0])
         cmp('ffm2:factor:other-units', f'FFM2 sea-level equivalent of 1 kg/s per engine at {h:g} m, Mach {int(m) / 100:g}, state given in hPa / deg R with P_SL=1013.25, T_SL=518.67, n_eng=4', got_u, want / 1e6)
+    if 'ffm2z33' in row:
+        got_z = float(np.asarray(get_SLS_equivalent_fuel_flow(np.array([2.0]), np.array([P]), np.array([theta * 288.15]), np.array([0.8]), z=3.3)).ravel()[0])
+        cmp('ffm2:factor:exponent-given', f'FFM2 sea-level equivalent of 1 kg/s per engine at {h:g} m, Mach 0.8 with z = 3.3', got_z, row['ffm2z33'] / 1e6)
     ff_cal = tmv(0.1, 0.3, 0.9, 1.1)
     for d in row['hcco']:
         T = theta * 288.15 + float(d)
